@@ -151,7 +151,65 @@ def compare_runs(ctx, live, rep, playback, w):
                 ctx.violation('play_data returned something else than what record_data stored', dict(w, key=e['key']))
 
 
+def threaded_under_scheduler(ctx):
+    """Worker threads of one operation call intercepted inputs at the same time and pass the same mutable argument object. The
+    recording is made under the deterministic scheduler (preemption points: the recorder, the copy helper and the lines of the
+    serializer that builds the keys), then replayed sequentially: every call must get what it got while recording."""
+    from playback.tape_recorder import TapeRecorder
+    from playback.tape_cassettes.in_memory.in_memory_tape_cassette import InMemoryTapeCassette
+    from vlib import sched as S
+    from checks.C04_sched import _in, _out, _call
+    import jsonpickle.pickler
+    import playback.tape_recorder as tr
+    import playback.utils.pickle_copy as pc
+    tg = [tr.__file__, pc.__file__, jsonpickle.pickler.__file__]
+    shared = [1, [2, 3], {'k': 'v'}]
+    lit = lambda v: {'lit': v}
+    call = lambda decl, var, *a: {'op': 'in', 'decl': decl, 'args': [lit(x) for x in a], 'kwargs': {}, 'var': var}
+    prog = {'seed_world': 4711, 'class_level': False, 'extractor': None, 'params': None, 'opts': {'raise_rate': 0.0}, 'uid': 970001,
+            'inputs': [_in('in0', 'thr.a', nparams=2), _in('in1', 'thr.b', nparams=1, kind='static')], 'outputs': [_out('out0', 'thr.out')],
+            'body': [{'op': 'threads', 'bodies': [[call('in0', 'a0', shared, 0), call('in1', 'a1', shared)],
+                                                  [call('in0', 'b0', shared, 1), call('in1', 'b1', [shared, shared])]]},
+                     {'op': 'out', 'decl': 'out0', 'args': [{'var': 'a0'}], 'kwargs': {}, 'var': 'o'}]}
+    holder = {}
+
+    def make(sched):
+        spy = SpyCassette(InMemoryTapeCassette())
+        rec = TapeRecorder(spy)
+        rec.enable_recording()
+        b = Built(prog, rec, World(4711, raise_rate=0.0, hostile_rate=0.0),
+                  thread_factory=lambda target, args, name: sched.Thread(target=target, args=args, name=name))
+        holder.update(built=b, spy=spy)
+        return lambda: b.run('live')
+
+    def on_run(rec, desc):
+        ctx.case(rec.trace, nontrivial=len(rec.points) > 0)
+        ctx.count('threaded_recordings_under_scheduler')
+        w = {'threaded_under_scheduler': True, 'schedule': desc if isinstance(desc, tuple) else list(desc)}
+        if rec.aborted or rec.error is not None:
+            if rec.aborted and 'budget' in rec.aborted:
+                ctx.count('schedules_over_step_budget')
+                return
+            ctx.violation('threaded recording: %s' % (rec.aborted or repr(rec.error))[:100], w)
+            return
+        live, spy = holder['built'], holder['spy']
+        saves = [e for e in spy.log if e[0] == 'save']
+        if len(saves) != 1 or any(e[0] == 'save_failed' for e in spy.log):
+            ctx.violation('fault-free threaded program was not saved exactly once', w)
+            return
+        rec2 = TapeRecorder(spy.inner)
+        rep = Built(prog, rec2, World(1, poison=True), cls_name=live.cls.__name__)
+        try:
+            pb = rec2.play(saves[0][2], playback_function_for(rep))
+        except BaseException as ex:  # noqa
+            ctx.violation('replay of a recording made by concurrent worker threads failed with %s' % type(ex).__name__, dict(w, error=repr(ex)[:200]))
+            return
+        compare_runs(ctx, live, rep, pb, w)
+    S.explore_random(make, tg, ctx.budget(80, 5000), ctx.rng, on_run, step_budget=300000)
+
+
 def run(ctx):
+    threaded_under_scheduler(ctx)
     n = ctx.budget(400, 20000)
     base = ctx.seed * 1000003 + ctx.shard * 1000000
     for i in range(n):
